@@ -192,3 +192,37 @@ extern "C" int vfs_fsync(int fd) {
     if (g_log_on) { Op o; o.kind = OP_FSYNC; o.path = d->path; g_log.push_back(std::move(o)); }
     return 0;
 }
+
+namespace vfs {
+size_t count_mutations(const std::vector<Op> & log, const std::string & path) {
+    size_t n = 0;
+    for (auto & o : log) if (o.path == path && (o.kind == OP_WRITE || o.kind == OP_TRUNCATE)) ++n;
+    return n;
+}
+std::vector<uint8_t> crash_image(const std::vector<Op> & log, const std::string & path, size_t k, size_t b) {
+    std::vector<uint8_t> f;
+    size_t n = 0;
+    for (auto & o : log) {
+        if (o.path != path) continue;
+        if (o.kind == OP_OPEN) { if ((o.off & O_TRUNC) && (o.off & (O_RDWR | O_WRONLY))) f.clear(); continue; }
+        if (o.kind != OP_WRITE && o.kind != OP_TRUNCATE) continue;
+        size_t len = o.data.size();
+        if (n == k) {
+            if (o.kind == OP_WRITE && b > 0) {
+                size_t m = b < len ? b : len;
+                if ((size_t) o.off + m > f.size()) f.resize((size_t) o.off + m, 0);
+                memcpy(f.data() + o.off, o.data.data(), m);
+            }
+            break;
+        }
+        if (o.kind == OP_WRITE) {
+            if ((size_t) o.off + len > f.size()) f.resize((size_t) o.off + len, 0);
+            if (len) memcpy(f.data() + o.off, o.data.data(), len);
+        } else {
+            f.resize((size_t) o.off, 0);
+        }
+        ++n;
+    }
+    return f;
+}
+}
